@@ -45,6 +45,11 @@ type fdesc struct {
 	ino   *inode
 	name  string
 	isDir bool
+	// positional descriptors (OpenFile without O_APPEND) write at their
+	// offset, overwriting what is there; Create truncates, so appending
+	// and positional writing coincide for it
+	positional bool
+	off        int
 }
 
 type FSCall struct {
@@ -181,6 +186,34 @@ func (f *SimFS) Create(name string) (int, error) {
 	return fd, err
 }
 
+// OpenFile honours O_CREATE, O_EXCL, O_TRUNC and O_APPEND; writes without
+// O_APPEND start at offset 0 and overwrite in place.
+func (f *SimFS) OpenFile(name string, flag int) (int, error) {
+	fd := 0
+	_, err := f.call("create", name, "", 0, func(int) error {
+		ino := f.Dir[name]
+		if ino == nil {
+			if flag&simos.O_CREATE == 0 {
+				return &fs.PathError{Op: "open", Path: name, Err: fs.ErrNotExist}
+			}
+			ino = &inode{dirty: true}
+			f.Dir[name] = ino
+		} else if flag&simos.O_CREATE != 0 && flag&simos.O_EXCL != 0 {
+			return &fs.PathError{Op: "open", Path: name, Err: fs.ErrExist}
+		}
+		if flag&simos.O_TRUNC != 0 {
+			ino.data = ino.data[:0:0]
+			ino.dirty = true
+		}
+		f.nextFD++
+		fd = f.nextFD
+		d := &fdesc{ino: ino, name: name, positional: flag&simos.O_APPEND == 0}
+		f.fds[fd] = d
+		return nil
+	})
+	return fd, err
+}
+
 func (f *SimFS) Open(name string) (int, error) {
 	fd := 0
 	_, err := f.call("open", name, "", 0, func(int) error {
@@ -203,7 +236,16 @@ func (f *SimFS) Write(fd int, p []byte) (int, error) {
 		return 0, fs.ErrClosed
 	}
 	return f.call("write", d.name, "", len(p), func(accept int) error {
-		d.ino.data = append(d.ino.data, p[:accept]...)
+		if d.positional {
+			for len(d.ino.data) < d.off {
+				d.ino.data = append(d.ino.data, 0)
+			}
+			n := copy(d.ino.data[d.off:], p[:accept])
+			d.ino.data = append(d.ino.data, p[n:accept]...)
+			d.off += accept
+		} else {
+			d.ino.data = append(d.ino.data, p[:accept]...)
+		}
 		d.ino.dirty = true
 		return nil
 	})
